@@ -112,6 +112,6 @@ func init() {
 		Real: realCore, Stub: stubCore,
 		Assume:         []string{"the pure converter round trips are only evaluated on paths the simulation produces (not a cross product): see MANIFEST level_note"},
 		RequiredProbes: []string{"nonalpha-key-path", "special-char-key"},
-		QuickSeconds: 30, ThoroughSeconds: 420,
+		QuickSeconds:   30, ThoroughSeconds: 420,
 	})
 }
